@@ -94,8 +94,9 @@ def execute(ctx, flavour, caller, ncalls, fixed_kw=None):
     plan = []
     for i in range(ncalls):
         what, detail, obj = _outcome(ctx, "_%d" % i)
-        arity = ctx.choice("arity_%d" % i, 3)
-        kws = KW[ctx.choice("kw_%d" % i, len(KW), fixed=fixed_kw)]
+        # the argument shape is symbolic for the first call; later calls of a sequence vary their outcome only
+        arity = ctx.choice("arity_%d" % i, 3, fixed=None if i == 0 else (i % 3))
+        kws = KW[ctx.choice("kw_%d" % i, len(KW), fixed=fixed_kw if i == 0 else (i + 1) % 3)]
         args = tuple(ctx.num("c%d_a%d" % (i, j), "int") for j in range(arity))
         kwargs = {k: ctx.num("c%d_%s" % (i, k), "int") for k in kws}
         plan.append((what, detail, obj, args, kwargs))
